@@ -591,7 +591,7 @@ fn env_value(name: &str) -> V {
         "a" => V::I(7),
         "b" => V::I(3),
         "c" => V::I(2),
-        "d" => V::I(5),
+        "d" => V::I(3),
         "e" => V::I(0),
         "p" => V::B(true),
         "q" => V::B(false),
@@ -607,7 +607,7 @@ fn bindings() -> Vec<(String, CelValue)> {
         ("a".into(), CelValue::Int(7)),
         ("b".into(), CelValue::Int(3)),
         ("c".into(), CelValue::Int(2)),
-        ("d".into(), CelValue::Int(5)),
+        ("d".into(), CelValue::Int(3)),
         ("e".into(), CelValue::Int(0)),
         ("p".into(), CelValue::Bool(true)),
         ("q".into(), CelValue::Bool(false)),
@@ -781,7 +781,35 @@ fn spec_wire(u: &U, out: &mut Vec<String>) -> bool {
             out.push("?".into());
             spec_wire(c, out) && spec_wire(t, out) && spec_wire(f, out)
         }
-        U::Lit(..) | U::List(_) | U::Post(..) => false,
+        U::Post(base, chain) => {
+            // prefix form: the last operation of the chain is the outermost node
+            let mut ok = true;
+            for o in chain.iter().rev() {
+                match o {
+                    PostOp::Access(n) => out.push(format!("A{}", hex(n.as_bytes()))),
+                    PostOp::Index(_) => out.push("X".into()),
+                    PostOp::Call(args) if args.len() <= 2 => out.push(format!("C{}", args.len())),
+                    PostOp::Call(_) => {
+                        out.push("C9".into());
+                        ok = false
+                    }
+                }
+            }
+            ok = spec_wire(base, out) && ok;
+            for o in chain.iter() {
+                match o {
+                    PostOp::Access(_) => {}
+                    PostOp::Index(e) => ok = spec_wire(e, out) && ok,
+                    PostOp::Call(args) => {
+                        for a in args {
+                            ok = spec_wire(a, out) && ok
+                        }
+                    }
+                }
+            }
+            ok
+        }
+        U::Lit(..) | U::List(_) => false,
     }
 }
 
@@ -805,7 +833,8 @@ enum Sep {
 
 const PREFIXES: [&str; 5] = ["", "!", "!!", "-", "--"];
 const NAMES: [&str; 4] = ["a", "b", "c", "d"];
-const LITS: [u64; 4] = [7, 3, 2, 5];
+// b = d on purpose: `<=`/`>=`/`==` differ from `<`/`>`/`!=` only on equal operands
+const LITS: [u64; 4] = [7, 3, 2, 3];
 
 fn prefixed(i: usize, pre: u8, literal: bool) -> U {
     let atom = if literal { U::Int(LITS[i]) } else { U::Id(NAMES[i].to_string()) };
@@ -952,7 +981,7 @@ impl<'a> TreeGen<'a> {
                 0 => PostOp::Access(self.r.pick(&["k", "size", "f", "a"]).to_string()),
                 1 => PostOp::Index(self.any(depth / 2)),
                 _ => {
-                    let k = self.r.below(3);
+                    let k = self.r.below(4);
                     PostOp::Call((0..k).map(|_| self.any(depth / 2)).collect())
                 }
             });
@@ -1094,9 +1123,10 @@ fn queue_exec(pending: &mut Vec<Pending>, src: &str, got: &str) {
     });
 }
 
-fn queue_spec(pending: &mut Vec<Pending>, u: &U, min_text_single: &str, min_nest: u32) {
+fn queue_spec(rep: &mut Report, pending: &mut Vec<Pending>, u: &U, min_text_single: &str, min_nest: u32) {
     let mut w = Vec::new();
     if spec_wire(u, &mut w) {
+        rep.bump(if w.iter().any(|t| t.starts_with('A') || t.starts_with('X') || t.starts_with('C')) { "spec:with-postfix" } else { "spec:operators-only" });
         pending.push(Pending {
             request: format!("c02spec {}", w.join(" ")),
             implementation: format!("W{} D{} {}", if wf(u) { 1 } else { 0 }, min_nest, hex(min_text_single.as_bytes())),
@@ -1131,7 +1161,7 @@ fn do_item(rep: &mut Report, pending: &mut Vec<Pending>, item: &Item, idx: usize
             }
             // the flat text has no parentheses: it must be the minimal rendering of its tree
             if idx % 4 == 1 {
-                queue_spec(pending, &want_u, &src, nest(&want_u));
+                queue_spec(rep, pending, &want_u, &src, nest(&want_u));
             }
             rep.sample(json!({"src": src, "expected_shape": format!("{:?}", want), "result": c.exec}));
         }
@@ -1187,7 +1217,7 @@ fn do_item(rep: &mut Report, pending: &mut Vec<Pending>, item: &Item, idx: usize
                     queue_exec(pending, t, got);
                 }
             }
-            queue_spec(pending, &u2, &t_min_single, nest(&m));
+            queue_spec(rep, pending, &u2, &t_min_single, nest(&m));
             // the tree as it stands, without adding parentheses: when it is a derivation the parser must
             // return it, too (right-leaning trees are not: their text belongs to another tree)
             if wf(&u2) {
